@@ -6,6 +6,7 @@ import (
 	"math/big"
 	"reflect"
 	"sort"
+	"strconv"
 	"strings"
 	"sync"
 	"unsafe"
@@ -196,6 +197,15 @@ func c15Run(w *mc.W, h c15History, observe bool) (stateKey string, nslots int) {
 								break
 							}
 						}
+					}
+				}
+			case "scan": // a wallet's address scan: Arg derivations Child(0..Arg-1), results dropped
+				n, _ := strconv.Atoi(op.Arg)
+				for i := 0; i < n; i++ {
+					if _, err := s.k.Child(uint32(i)); err != nil && err != hdkeychain.ErrInvalidChild {
+						fail("child-derivation-fails", fmt.Sprintf("step %d: Child(%d): %v", step, i, err))
+						executable = false
+						return
 					}
 				}
 			case "string":
@@ -448,6 +458,37 @@ func runC15(c *mc.Ctx) {
 			c.Note("fixpoint_reached_at_depth", d)
 			break
 		}
+	}
+	// Long histories: the depth bound keeps every history under a handful of derivations, so anything
+	// that changes with the NUMBER of derivations made in a process (a bounded cache that evicts, a
+	// pool that recycles) is out of its reach.  Fixed histories with address scans of 300, 5000 (and
+	// 70000 thorough) derivations from a hardened account key and from its public twin, with the
+	// usual pool operations before and after; every pool key is observed at the end as always.
+	{
+		var longs []c15History
+		for _, n := range mc.Pick(c, []string{"300", "5000"}, []string{"300", "5000", "70000"}) {
+			base := []c15Op{{Op: "master", Arg: "A/mainnet"}, {Op: "child", Slot: 0, Arg: "h"}, {Op: "neuter", Slot: 1}}
+			for _, tail := range [][]c15Op{
+				{{Op: "scan", Slot: 1, Arg: n}},
+				{{Op: "scan", Slot: 2, Arg: n}},
+				{{Op: "scan", Slot: 1, Arg: n}, {Op: "scan", Slot: 2, Arg: n}},
+				{{Op: "scan", Slot: 2, Arg: n}, {Op: "zero", Slot: 0}},
+				{{Op: "child", Slot: 2, Arg: ""}, {Op: "scan", Slot: 1, Arg: n}, {Op: "zero", Slot: 1}},
+				{{Op: "zero", Slot: 0}, {Op: "scan", Slot: 1, Arg: n}, {Op: "scan", Slot: 2, Arg: n}},
+			} {
+				longs = append(longs, c15History{Ops: append(append([]c15Op{}, base...), tail...)})
+			}
+		}
+		c.Space("long histories: address scans of 300 / 5000 (70000) derivations around the pool operations", int64(len(longs)))
+		// one after the other: what counts is how many derivations the process has made
+		w := c.Worker()
+		for _, h := range longs {
+			w.State()
+			if key, _ := c15Run(w, h, true); key == "" {
+				c.NotExhaustive("a long history was not executable")
+			}
+		}
+		w.Done()
 	}
 	c.States.Add(totalStates)
 	c.Sample("history", c15History{Ops: []c15Op{{Op: "master", Arg: "A/mainnet"}, {Op: "neuter", Slot: 0}, {Op: "zero", Slot: 0}}})
